@@ -250,6 +250,19 @@ def gen_metric_records(rng, metrics, n_random, exhaustive, dims=(1, 2, 3)):
             ri = rng.choice(rl)
             k = rng.choice([1, 1, 2, 3]) if style >= 0.25 else rng.randint(12, len(pl))
             pis = rng.sample(pl, min(k, len(pl)))
+            if style >= 0.4 and np.dtype(dt).kind in "iu" and np.dtype(dt).itemsize <= 2 and rng.random() < 0.25:
+                # labels the array's dtype cannot represent (a present label plus or minus a multiple of 2^bits):
+                # they are absent labels and select nothing, they are not cast onto a present one
+                mod = 2 ** (8 * np.dtype(dt).itemsize)
+                present_p = [int(x) for x in np.unique(pred) if x]
+                present_r = [int(x) for x in np.unique(ref) if x]
+                if present_p and rng.random() < 0.8:
+                    base = rng.choice(present_p)
+                    alias = base + mod * rng.choice([1, 1, 2, -1])
+                    pis = [p for p in pis if p != base][: rng.choice([0, 1])] + [alias]
+                    rng.shuffle(pis)
+                elif present_r:
+                    ri = rng.choice(present_r) + mod * rng.choice([1, 2, -1])
             if style >= 0.4 and rng.random() < 0.15:
                 # the background is a label like any other; a list of prediction labels may be empty
                 which = rng.choice(["ref0", "pred0", "both0", "empty", "with0"])
